@@ -134,6 +134,19 @@ func (c *stepCtx) runStep(k int, st map[string]interface{}) []string {
 		return []string{fmt.Sprintf(`"ev":"Drop","obj":%d`, num(st, "obj", -1))}
 	case "recheck":
 		return []string{c.stepRecheck(st)}
+	case "clone":
+		// a shallow copy of a kept object (the struct is copied, everything it points to is shared):
+		// what a caller holds who copied the struct, or kept its field pointers, before reusing it
+		o := num(st, "obj", -1)
+		if ov, ok := c.objs[o]; ok {
+			cp := reflect.New(ov.Type().Elem())
+			cp.Elem().Set(ov.Elem())
+			c.objs[k] = cp
+			c.objTy[k] = c.objTy[o]
+			c.ins[k] = c.ins[o]
+			c.snaps[k] = valueDigestNoNocopy(c.objTy[o], cp)
+		}
+		return []string{fmt.Sprintf(`"ev":"Clone","obj":%d`, o)}
 	}
 	fmt.Fprintln(os.Stderr, "harness: unknown op", st["op"])
 	return []string{`"ev":"Unknown"`}
@@ -354,6 +367,12 @@ func (c *stepCtx) stepDecode(k int, st map[string]interface{}) string {
 		dest = reflect.New(d.rt)
 	case "val":
 		dest = newValue(ty, c.sc.Vals[num(st, "dv", 0)])
+	case "into": // the object an earlier decode step produced, decoded into again (a recycled target)
+		ov, ok := c.objs[num(st, "obj", -1)]
+		if !ok {
+			return fmt.Sprintf(`"ev":"Skipped","ty":%q,"why":"no object from step %d"`, ty, num(st, "obj", -1))
+		}
+		dest = ov
 	}
 	destJSON := projectStruct(ty, dest)
 	inpre := digestBytes(in)
